@@ -117,15 +117,25 @@ def parseRecs : Nat → List String → Option (List (Nat × Nat × Nat × Resp)
   | _, _ => none
 
 /-- Pairs a task's program with its records; records beyond the program are the final drain
-(`next` on the task's stream).  Deliveries and ends may have been read ahead by the encoder
-during an earlier poll of the same stream, so their window opens when the subscription
-returned; a `pend` answer is read during its own poll. -/
+(`next` on the task's stream, issued after every task has finished its program).
+
+Windows.  Deliveries and ends may have been read ahead by the encoder during an earlier poll of
+the same stream, so their window opens when the subscription returned.
+
+`pend` answers.  A poll that finds the stream's `changed()` future parked on its `Notify` does
+not re-read the channel version; it answers "pending" until the notification arrives, and
+tokio delivers the notifications of one `send` to different receivers at different moments
+(`watch` spreads receivers over several `Notify` cells and walks them in turn, after bumping
+the version).  So while updates are in flight a `pend` only says "no wake-up yet", not "no
+update yet", and is no evidence about the order of operations: such records are left out of
+the search.  Once every task has finished (all `send`s have returned, hence all wake-ups have
+been delivered) a `pend` is a real answer: the drain records are kept, each in its own window. -/
 def mkCalls : List Op → List (Nat × Nat × Resp) → Nat → List Lin.Call
   | _, [], _ => []
   | ops, (i, r, a) :: recs, subAt =>
-    let (op, ops') := match ops with
-      | [] => (Op.next 0, [])
-      | o :: os => (o, os)
+    let (op, ops', drain) := match ops with
+      | [] => (Op.next 0, [], true)
+      | o :: os => (o, os, false)
     let inv := match op, a with
       | .next _, .pending => i
       | .next _, _ => min i subAt
@@ -133,7 +143,11 @@ def mkCalls : List Op → List (Nat × Nat × Resp) → Nat → List Lin.Call
     let subAt' := match op with
       | .watch _ => r
       | _ => subAt
-    ⟨op, inv, r, a⟩ :: mkCalls ops' recs subAt'
+    let skip := match op, a with
+      | .next _, .pending => !drain
+      | _, _ => false
+    if skip then mkCalls ops' recs subAt'
+    else ⟨op, inv, r, a⟩ :: mkCalls ops' recs subAt'
 
 def accModel (s : H) (op : Op) (r : Resp) : Option H :=
   let (s', r') := Health.step s op
